@@ -301,15 +301,20 @@ class ConnectedRemotePeer(RemotePeer):
                                     % (self.host, len(self.send_buffer), len(self.send_backlog)))
 
         with self.send_lock:
-            sent = sock.send(self.send_buffer)
-            self.send_buffer = self.send_buffer[sent:]
+            # a loop, not recursion: a responder in a bulk download queues one frame per requested block, and draining
+            # a thousand of them in one go would exceed the interpreter's recursion limit (dropping an honest peer).
+            while True:
+                sent = sock.send(self.send_buffer)
+                self.send_buffer = self.send_buffer[sent:]
 
-            if len(self.send_buffer) == 0:
+                if len(self.send_buffer) > 0:
+                    return
+
                 if len(self.send_backlog) == 0:
                     self.stop_sending()
-                else:
-                    self.send_buffer = self.send_backlog.pop(0)
-                    self.handle_can_send(sock)
+                    return
+
+                self.send_buffer = self.send_backlog.pop(0)
 
     def handle_receive_data(self, data: bytes) -> None:
         self.local_peer.logger.info("%15s ConnectedRemotePeer.handle_receive_data(%d)" % (self.host, len(data)))
